@@ -111,14 +111,14 @@ theorem jacobi_params_pos {a h r1 r2 : K} (ha : a ≠ 0) (hr1 : r1 * r1 = 1 + ((
   have ht' : t * (r1 + θ) = 1 := by rw [← ht]; field_simp
   constructor
   · field_simp
-    linear_combination hr2
+    linear_combination (-1 : K) * hr2
   · subst hh
     have : t * t * (r1 * r1 - θ * θ) = t * (r1 - θ) := by
       have := congrArg (fun x => x * (t * (r1 - θ))) ht'
       simp only [one_mul] at this
       linear_combination this
     rw [hr1] at this
-    linear_combination a * this - a * ht'
+    linear_combination a * this + a * ht'
 
 theorem jacobi_params_neg {a h r1 r2 : K} (ha : a ≠ 0) (hr1 : r1 * r1 = 1 + ((1 / 2 * h) / a) * ((1 / 2 * h) / a))
     (hd : r1 - (1 / 2 * h) / a ≠ 0) (h2 : (2 : K) ≠ 0)
@@ -131,14 +131,14 @@ theorem jacobi_params_neg {a h r1 r2 : K} (ha : a ≠ 0) (hr1 : r1 * r1 = 1 + ((
   have ht' : t * (r1 - θ) = -1 := by rw [← ht]; field_simp
   constructor
   · field_simp
-    linear_combination hr2
+    linear_combination (-1 : K) * hr2
   · subst hh
     have : t * t * (r1 * r1 - θ * θ) = -(t * (r1 + θ)) := by
       have := congrArg (fun x => x * (t * (r1 + θ))) ht'
       simp only [neg_mul, one_mul] at this
       linear_combination this
     rw [hr1] at this
-    linear_combination a * this + a * ht'
+    linear_combination a * this - a * ht'
 
 /-- the update performed by the rotation code on the pair (0,1) is the similarity by `G01 c s`, provided
 `c² + s² = 1`, `s = t c` and `a01 t² + (a11 − a00) t − a01 = 0` -/
@@ -149,11 +149,11 @@ theorem rot01_similarity {a00 a11 a22 a01 a02 a12 c s t : K} (hcs : c * c + s * 
   subst hs
   unfold G01; c03_unfold
   refine ⟨?_, ?_, ?_, ?_, ?_, ?_, ?_, ?_, ?_⟩
-  · linear_combination (a00 - t * a01) * hcs - c * c * ht
+  · linear_combination (a00 - t * a01) * hcs + c * c * t * ht
   · linear_combination (-(c * c)) * ht
   · ring1
   · linear_combination (-(c * c)) * ht
-  · linear_combination (a11 + t * a01) * hcs + c * c * ht
+  · linear_combination (a11 + t * a01) * hcs - c * c * t * ht
   · ring1
   · ring1
   · ring1
@@ -166,7 +166,7 @@ theorem rot02_similarity {a00 a11 a22 a01 a02 a12 c s t : K} (hcs : c * c + s * 
   subst hs
   unfold G02; c03_unfold
   refine ⟨?_, ?_, ?_, ?_, ?_, ?_, ?_, ?_, ?_⟩
-  · linear_combination (a00 - t * a02) * hcs - c * c * ht
+  · linear_combination (a00 - t * a02) * hcs + c * c * t * ht
   · ring1
   · linear_combination (-(c * c)) * ht
   · ring1
@@ -174,7 +174,7 @@ theorem rot02_similarity {a00 a11 a22 a01 a02 a12 c s t : K} (hcs : c * c + s * 
   · ring1
   · linear_combination (-(c * c)) * ht
   · ring1
-  · linear_combination (a22 + t * a02) * hcs + c * c * ht
+  · linear_combination (a22 + t * a02) * hcs - c * c * t * ht
 
 theorem rot12_similarity {a00 a11 a22 a01 a02 a12 c s t : K} (hcs : c * c + s * s = 1) (hs : s = t * c)
     (ht : a12 * t * t + (a22 - a11) * t - a12 = 0) :
@@ -187,10 +187,10 @@ theorem rot12_similarity {a00 a11 a22 a01 a02 a12 c s t : K} (hcs : c * c + s * 
   · ring1
   · ring1
   · ring1
-  · linear_combination (a11 - t * a12) * hcs - c * c * ht
+  · linear_combination (a11 - t * a12) * hcs + c * c * t * ht
   · linear_combination (-(c * c)) * ht
   · ring1
   · linear_combination (-(c * c)) * ht
-  · linear_combination (a22 + t * a12) * hcs + c * c * ht
+  · linear_combination (a22 + t * a12) * hcs - c * c * t * ht
 
 end TfelVerif.C03
